@@ -430,6 +430,11 @@ class Evaluator:
                 return Evaluator(self.repo, base[1]).eval(r[1].value, {})
             raise Unknown(f"module attribute {attr}")
         if isinstance(base, tuple) and base and base[0] == "ext":
+            if base[1] == "string":
+                import string as _string
+                v = getattr(_string, attr, None)
+                if isinstance(v, str):
+                    return v        # string.ascii_letters and the like
             if base[1] == "struct" and attr == "calcsize":
                 return ("pyfunc", struct.calcsize)
             if base[1] == "operator" and attr == "index":
